@@ -3,6 +3,21 @@
 import json, subprocess
 
 CLAIMED = {
+ "C01": dict(level="exploration", engine="e2-replay",
+   technique="stateless exhaustive exploration of every program's complete choice tree; each execution is re-executed from the printed form of the schedule the runtime recorded, under a recording wrapper, and compared call by call and log entry by log entry",
+   text="For every execution (passing, panicking, deadlocking) of the generated programs of 8 families (incl. shuttle::rand draws served from the seeded data stream): the runtime's recorded schedule equals the independently reconstructed sequence of answered scheduler calls; ReplayScheduler::new_from_encoded(printed string) reproduces every scheduler call, every draw, every operation result (incl. vector clocks) and the same ending; UncontrolledNondeterminismCheckScheduler around the same exploration never complains.",
+   note="Built-in schedulers' own determinism (same seed => same run, reported seed reproduces the iteration) is decided by C09-C11. Small-scope hypothesis.",
+   design="DESIGN.md §4 C01"),
+ "C14": dict(level="exploration", engine="e2-iso",
+   technique="exhaustive pairs (predecessor execution A, execution B) over all complete schedules and all scheduler-stopped prefixes of bodies using per-execution state; differential oracle B-after-A vs B-alone plus a drop ledger",
+   text="Bodies use thread_local!, lazy_static!, a static Once, labels, vector clocks, context_switches, the step counter and drop-counted values on stacks / in statics / in thread-locals. Every complete schedule B is run as the second execution of one Runner::run after every A in {complete schedules} U {every proper prefix stopped by the scheduler}, and alone: B's complete observation log (task ids, results, clocks, counters, labels, initialisations) must be identical and no value created in A may be alive when B starts.",
+   note="ContinueAfter cuts share the teardown path and are covered by C13's grid. Small bodies (6 programs, <= 60 schedules each).",
+   design="DESIGN.md §4 C14"),
+ "C15": dict(level="exploration", engine="e2-clock",
+   technique="stateless exhaustive exploration with shuttle::current::clock() sampled after every operation; happens-before edges derived from the log by API-level rules; target-clock replay of every execution",
+   text="On every execution of the generated programs of 7 families: every required happens-before edge (program order, spawn, join, scope, unlock->lock, rwlock, atomic write->read, send->recv, bounded back-edge, notify_all->wait, barrier, once, flag store->load) is reflected by clock dominance; two tasks are clock-ordered only if a chain of object accesses connects them; clocks never decrease; ReplayScheduler::set_target_clock on the recorded schedule never fails and reproduces everything in the target's happens-before past.",
+   note="Two-relation form (must / may) so documented over-approximations raise no alarm; for Once and mpsc the source of the edge is the sender's state before the operation (the operation itself may advance the clock after publishing).",
+   design="DESIGN.md §4 C15"),
  "C02": dict(level="model_checking", engine="e2-all",
    technique="explicit-state BFS of strict sequentially-consistent reference models (all interleavings at operation granularity) vs. the set of outcomes over ALL schedules of the real runtime enumerated by the explorer-scheduler; outcome-set inclusion per program",
    text="For every generated program of the 7 primitive families (Mutex/RwLock, atomics, Condvar/Barrier/Once/park, mpsc, spawn/join/scope/TLS, BatchSemaphore, async tasks) the set of outcomes (per-thread results + ending) of the strict model must be contained in the set produced by the fully explored schedule tree: an outcome nobody produces is an interleaving the runtime cannot reach (a missing scheduling point). Missing outcomes are attributed to a recorded finding only if the model with exactly that operation fused to its predecessor has all its outcomes produced.",
